@@ -424,6 +424,28 @@ class RdmsOps:
         if got != (n, n, (n, n)):
             self.pool.report('C10', 'rdms_twin.size', 'size_recovery:n_cond',
                              f'a vector of length {n * (n - 1) // 2} gives n_cond {got}, expected {n}')
+        if r1.n_rdm != 1 + o['a'][1] % 3 or r1.dissimilarities.shape != (1 + o['a'][1] % 3, n * (n - 1) // 2):
+            self.pool.report('C10', 'rdms_twin.size', 'size_recovery:n_rdm',
+                             f'a stack of {1 + o["a"][1] % 3} vectors of length {n * (n - 1) // 2} gives n_rdm {r1.n_rdm}, '
+                             f'dissimilarities {r1.dissimilarities.shape}')
+        # as many RDMs as pairs: the stack of vectors is a square array, here even a symmetric one with a zero diagonal --
+        # it is a stack of vectors all the same (2-D input = vectors, 3-D input = matrices)
+        npair = n * (n - 1) // 2
+        if 2 <= npair <= 45:
+            stack = np.array([[0.0 if i == j else 1.0 + min(i, j) * npair + max(i, j) + 0.25 * (o['a'][2] % 3) for j in range(npair)] for i in range(npair)])
+            if o['a'][3] % 3 == 0:
+                stack = np.zeros((npair, npair))
+            try:
+                r3 = RDMs(stack.copy())
+                ok3 = (r3.n_rdm == npair and r3.n_cond == n and np.array_equal(r3.get_vectors(), stack)
+                       and r3.get_matrices().shape == (npair, n, n))
+            except Exception as e:
+                return self._raise('size_recovery:square-stack', e)
+            if not ok3:
+                self.pool.report('C10', 'rdms_twin.size', 'size_recovery:square-stack',
+                                 f'a stack of {npair} vectors of length {npair} ({n} conditions) gives n_rdm {r3.n_rdm}, n_cond {r3.n_cond}, '
+                                 f'dissimilarities {r3.dissimilarities.shape}')
+            self.ctx.probe('square_stack_checked')
         self.ctx.behaviour('size_recovery', n)
 
     def op_to_df(self, o):
@@ -670,7 +692,7 @@ class RdmsOps:
         cset = set(first.sem['cu'])
         cands = [s for s in self.rdms(True) if s.sid != first.sid and set(s.sem['cu']) == cset
                  and len(s.sem['cu']) == len(cset) and s.obj.dissimilarity_measure == first.obj.dissimilarity_measure
-                 and set(s.obj.rdm_descriptors.keys()) - {'note'} == set(first.obj.rdm_descriptors.keys()) - {'note'}
+                 and set(s.obj.rdm_descriptors.keys()) - {'note', 'session', 'subj'} == set(first.obj.rdm_descriptors.keys()) - {'note', 'session', 'subj'}
                  and set(s.obj.pattern_descriptors.keys()) == set(first.obj.pattern_descriptors.keys())
                  and set(s.sem.get('missing', ())) == set(first.sem.get('missing', ()))
                  and (s.sem.get('remap') or {}) == (first.sem.get('remap') or {})]
